@@ -136,7 +136,7 @@ pub fn user_key(i: u32) -> Keys {
 }
 
 pub fn tower_key() -> Keys {
-    let sk = SecretKey::from_slice(&[0x07u8; 32]).unwrap();
+    let sk = SecretKey::from_slice(&[0xabu8; 32]).unwrap(); // (an all-digit hex key would be stored as a number by sqlite: INT affinity)
     Keys { sk, pk: PublicKey::from_secret_key(&Secp256k1::new(), &sk) }
 }
 
